@@ -23,7 +23,7 @@ RULE = (
     "capacities 1..3; boundary capacities / variant counts around 2**8, 2**16, 2**32 (analytic); all structures of <=3 "
     "fields and unions of 2..3 variants over the field alphabet of each depth (depth 1: 7 leaves + 5 arrays; depth 2: "
     "+13 representative depth-1 composites and 8 arrays of them; thorough depth 3: + a slice of depth-2 types), each "
-    "sealed and delimited with extent in {min, min+8, min+64}; every field order is a separate case. Non-trivial iff the "
+    "sealed and delimited with extent in {min, min+8, min+64}; every field order is a separate case; sequences of types whose elements / variants differ as sets but agree in min, max and residues mod 32 (built one after the other in one process); nested arrays whose lengths exceed 2**53 bits with low bits set. Non-trivial iff the "
     "type has an array or composite node; distinct by canonical hash of the description"
 )
 ASSUMPTIONS = [
@@ -86,6 +86,23 @@ def family(name: str, tier: str):
             yield ["delim", ["struct", []], ext]
             if ext >= 24:
                 yield ["delim", ["struct", [["uint", 17, "t"]]], ext]
+        # magnitudes beyond 2**53 bits with low bits set (nothing here may go through floating point), padded afterwards
+        big = ["struct", [["varr", ["struct", [["varr", ["uint", 64, "s"], 2**32]]], 2**32], ["bool"]]]
+        yield big
+        yield ["delim", big, L.tmax(big)]
+        yield ["struct", [["uint", 3, "s"], ["farr", ["struct", [["varr", ["uint", 17, "t"], 2**40 + 1], ["bool"]]], 2**20 + 3], ["uint", 3, "s"]]]
+        yield ["union", [["varr", ["struct", [["varr", ["uint", 64, "s"], 2**32 - 1]]], 2**32 - 1], ["farr", ["uint", 33, "s"], 2**59 + 1]]]
+        yield ["struct", [["varr", ["varr", ["varr", ["uint", 8, "s"], 2**24 + 1], 2**24 + 1], 2**24 + 1], ["bool"]]]
+    elif name == "colliders":
+        # sequences of types, built one after the other in ONE process, whose elements / variants / fields differ as sets but agree
+        # in min, max and residues mod 32
+        for g in T.COLLIDERS:
+            for a, b in itertools.permutations(g, 2):
+                yield ["seq", [["union", [a, b]], ["union", [b, a]], ["struct", [a, b]], ["struct", [["bool"], b, a]]]]
+                yield ["seq", [["struct", [["farr", a, 2]]], ["struct", [["farr", b, 2]]]]]
+                yield ["seq", [["struct", [["varr", a, 2], ["bool"]]], ["struct", [["varr", b, 2], ["bool"]]]]]
+                yield ["seq", [["struct", [["bool"], a]], ["struct", [["bool"], b]], ["union", [["farr", a, 3], ["farr", b, 3]]]]]
+                yield ["seq", [["delim", ["union", [a, b]], L.tmax(["union", [a, b]]) + 8], ["union", [["uint", 8, "s"], a, b]], ["union", [b, ["uint", 8, "s"], a]]]]
     elif name == "union-constants":
         # constants are attributes but not variants: (variants, constants) straddling the tag-width boundaries
         for n, c in [(2, 0), (2, 1), (2, 254), (2, 255), (3, 253), (3, 254), (255, 1), (255, 2), (256, 0), (256, 1), (257, 0), (2, 65534), (2, 65535), (65536, 1)]:
@@ -127,7 +144,7 @@ ALIAS_POOL = [
     ["union", [["bool"], ["uint", 8, "s"]]], ["union", [["uint", 8, "s"], ["bool"]]], ["union", [["uint", 8, "s"], ["uint", 56, "s"]]], ["union", [["uint", 8, "s"], ["uint", 24, "s"], ["uint", 56, "s"]]],
     ["delim", ["struct", [["uint", 8, "s"]]], 32], ["delim", ["struct", [["uint", 8, "s"], ["uint", 16, "s"]]], 32], ["delim", ["struct", [["uint", 8, "s"]]], 64], ["delim", ["union", [["bool"], ["uint", 8, "s"]]], 32],
 ]
-FAMILIES_QUICK = [("prims", 1), ("arrays", 4), ("boundary", 4), ("union-constants", 1), ("depth1s", 8), ("depth1u", 8), ("depth2s", 48), ("depth2u", 32), ("aliases", 1)]
+FAMILIES_QUICK = [("prims", 1), ("arrays", 4), ("boundary", 4), ("colliders", 4), ("union-constants", 1), ("depth1s", 8), ("depth1u", 8), ("depth2s", 48), ("depth2u", 32), ("aliases", 1)]
 FAMILIES_THOROUGH = FAMILIES_QUICK + [("depth3", 64)]
 
 
@@ -145,7 +162,7 @@ def cases(shard, tier):
         for a, b in itertools.permutations(range(len(ALIAS_POOL)), 2):
             yield {"alias": [a, b]}
         return
-    text_every = {"depth1s": 16, "depth1u": 16, "depth2s": 400, "depth2u": 400, "depth3": 200, "arrays": 0, "prims": 0, "boundary": 0, "union-constants": 0}[shard["family"]]
+    text_every = {"depth1s": 16, "depth1u": 16, "depth2s": 400, "depth2u": 400, "depth3": 200, "arrays": 0, "prims": 0, "boundary": 0, "union-constants": 0, "colliders": 0}[shard["family"]]
     for i, d in enumerate(family(shard["family"], tier)):
         if i % shard["parts"] == shard["part"]:
             yield {"desc": d, "text": bool(text_every and (i // shard["parts"]) % text_every == 0)}
@@ -260,6 +277,11 @@ def check_case(case, R: engine.Acc):
         return check_alias(case, R)
     if case["desc"][0] == "union+consts":
         return check_union_constants(case, R)
+    if case["desc"][0] == "seq":
+        for d in case["desc"][1]:
+            check_case({"desc": d, "text": False}, R)
+        R.outcome("colliders")
+        return
     desc = case["desc"]
     R.case(desc, nontrivial=nontrivial(desc), sample=(desc[0] == "delim" and len(desc[1][1]) == 3))
     V = lambda fp, clause, obs, exp: R.violation(fp, clause, case, observed=obs, expected=exp)  # noqa: E731
@@ -359,7 +381,7 @@ def worker_init():
 
 
 def finish(tier, M):
-    need = ["farr", "varr", "struct", "union", "delim-struct", "delim-union", "alias"]
+    need = ["farr", "varr", "struct", "union", "delim-struct", "delim-union", "alias", "colliders"]
     miss = [n for n in need if not M.hist.get(n)]
     if miss or not M.counters.get("text_builds") or not M.counters.get("expanded"):
         raise engine.Vacuous("families not visited: %s" % miss)
